@@ -24,7 +24,8 @@ class C04(c01.C01):
                          'models.judged.with_three_asset_portfolio',
                          'models.judged.with_households_buying_in_another_regions_market',
                          'retry_after_market_refusal.judged',
-                         'models.judged.with_getter_results_emptied_by_the_caller')
+                         'models.judged.with_getter_results_emptied_by_the_caller',
+                         'portfolio_only_model.second_run_on_same_objects.judged')
     which = ('markets', 'ledger')
 
     def make_case(self, rng, idx, tier):
@@ -34,6 +35,14 @@ class C04(c01.C01):
             return {'kind': 'retry_after_market_refusal', 'why': rng.choice(['no_supplier', 'two_candidates']),
                     'G': [float(rng.randint(10, 30)) for _ in range(6)], 'a1': round(rng.uniform(0.5, 0.8), 2),
                     'a2': round(rng.uniform(0.1, 0.4), 2), 'tax': round(rng.uniform(0.1, 0.3), 2), 'attempts': rng.choice([1, 2])}
+        if idx % 16 == 7:
+            # a portfolio-only model (plain sectors holding money, no goods or labour market: nothing books flows during
+            # generation) is solved, a behavioural parameter is changed and main() is called again on the same objects
+            n = rng.choice([2, 3, 4])
+            return {'kind': 'second_run_portfolio_only', 'n': n, 'F0': [float(rng.randint(20, 200)) for _ in range(n)],
+                    'transfer': [round(rng.uniform(-5, 9), 1) for _ in range(n)],
+                    'own_rule': [rng.random() < 0.5 for _ in range(n)], 'share1': round(rng.uniform(0.2, 0.8), 2),
+                    'share2': round(rng.uniform(0.2, 0.8), 2), 'runs': rng.choice([2, 3])}
         if idx % 16 == 3:
             case = c01.gen_case(rng, idx, tier)
             case.setdefault('build_opts', {})['mutate_returned_lists'] = True
@@ -108,9 +117,73 @@ class C04(c01.C01):
         return {'verdict': 'violated' if rec.violations else 'held', 'nontrivial': True, 'shape': 'retry|' + case['why'],
                 'counters': rec.counters, 'violations': rec.violations, 'obs': {'refusals': refused}}
 
+    def run_second_run(self, case):
+        import contextlib, io
+        from sfc_models.models import Model, Country
+        from sfc_models.sector import Sector
+        from sfc_models.sector_definitions import ConsolidatedGovernment, MoneyMarket
+        from vf import monitors
+        rec = monitors.Recorder()
+        T = 4
+        mod = Model()
+        ca = Country(mod, 'CA', 'CA')
+        ConsolidatedGovernment(ca, 'GOV', 'government')
+        names = ['S%d' % i for i in range(case['n'])]
+        secs = []
+        for i, nm in enumerate(names):
+            sec = Sector(ca, nm, nm, has_F=True)
+            sec.AddCashFlow('+TR', repr(case['transfer'][i]), 'transfer')      # booked here, once, when the model is built
+            if case['own_rule'][i]:
+                sec.AddVariable('SHARE', 'share held as money', repr(case['share1']))
+                sec.AddVariable('DEM_MON', 'money demand', 'SHARE*F')
+            mod.AddInitialCondition(nm, 'F', case['F0'][i])
+            secs.append(sec)
+        MoneyMarket(ca)
+        mod.MaxTime = T
+        tol = 1e-6
+        for run in range(case['runs']):
+            share = case['share1'] if run % 2 == 0 else case['share2']
+            for i, sec in enumerate(secs):
+                if case['own_rule'][i]:
+                    sec.SetEquationRightHandSide('SHARE', repr(share))
+            try:
+                with contextlib.redirect_stdout(io.StringIO()):
+                    mod.main()
+            except Exception as e:
+                if run == 0:
+                    return {'verdict': 'notjudged', 'shape': 'second_run|' + type(e).__name__, 'counters': rec.counters,
+                            'obs': {'err': repr(e)[:300]}}
+                rec.violate('second_build_of_portfolio_only_model_failed', {'run': run + 1, 'error': repr(e)[:300]})
+                break
+            V = mod.EquationSolver.TimeSeries
+            rec.count('portfolio_only_model.runs_judged')
+            if run > 0:
+                rec.count('portfolio_only_model.second_run_on_same_objects.judged')
+            for k in range(1, T + 1):
+                holders = sum(V[nm + '__DEM_MON'][k] for nm in names)
+                checks = [('market_demand_not_sum_of_declared_demands', V['MON__DEM_MON'][k], holders),
+                          ('market_supply_not_equal_demand', V['MON__SUP_MON'][k], V['MON__DEM_MON'][k]),
+                          ('supplier_amounts_do_not_add_up_to_supply', V['GOV__SUP_MON'][k], V['MON__SUP_MON'][k])]
+                for i, nm in enumerate(names):
+                    exp = (share if case['own_rule'][i] else 1.0) * V[nm + '__F'][k]
+                    checks.append(('participant_variable_not_market_assigned_amount', V[nm + '__DEM_MON'][k], exp))
+                    checks.append(('sector_ledger_not_sum_of_declared_flows', V[nm + '__F'][k] - V[nm + '__F'][k - 1], case['transfer'][i]))
+                for kind, got, exp in checks:
+                    if abs(got - exp) > tol * max(1.0, abs(exp)):
+                        rec.violate(kind, {'k': k, 'got': got, 'expected': exp, 'run_on_the_same_objects': run + 1})
+                        break
+                if rec.violations:
+                    break
+            if rec.violations:
+                break
+        return {'verdict': 'violated' if rec.violations else 'held', 'nontrivial': True, 'shape': 'second_run|n%d' % case['n'],
+                'counters': rec.counters, 'violations': rec.violations}
+
     def run_case(self, case):
         if case.get('kind') == 'retry_after_market_refusal':
             return self.run_retry(case)
+        if case.get('kind') == 'second_run_portfolio_only':
+            return self.run_second_run(case)
         res = c01.solve_and_judge(case, self.which, in_situ=False)
         if case.get('build_opts', {}).get('mutate_returned_lists') and res['verdict'] == 'notjudged':
             # the build failed although the only unusual thing the caller did was to empty lists it had been handed:
